@@ -46,8 +46,16 @@ func NewServer() *Server {
 	return srv
 }
 
+// reinitCLI replaces the CLI client; the caller holds settingsMu.
 func (s *Server) reinitCLI(cfg cliSettings) {
 	s.cliClient = cli.NewClient(cfg.Path, cfg.Timeout)
+}
+
+// getCLIClient returns the CLI client that matches the current settings.
+func (s *Server) getCLIClient() *cli.Client {
+	s.settingsMu.RLock()
+	defer s.settingsMu.RUnlock()
+	return s.cliClient
 }
 
 func (s *Server) SetClient(client protocol.Client) {
